@@ -27,9 +27,12 @@ def world0 : World :=
 
 /-- rebuild a finite map as a table (the interpreter otherwise walks an ever longer chain of
 `updF` closures); outside `< k` nothing is ever touched, so the initial default is returned -/
-def tab {α} (k : Nat) (f dflt : Nat → α) : Nat → α :=
-  let a := (Array.range k).map f
+@[noinline] def tabLookup {α} (a : Array α) (dflt : Nat → α) : Nat → α :=
   fun i => if h : i < a.size then a[i] else dflt i
+
+def tab {α} (k : Nat) (f dflt : Nat → α) : Nat → α :=
+  -- the table is an argument of a non-inlined function: evaluated once, before the closure is made
+  tabLookup ((Array.range k).map f) dflt
 
 def compact (w : World) : World :=
   { w with
